@@ -20,6 +20,7 @@ type specEnv struct {
 	pos     token.Pos // position for local-variable lookup (invariants); NoPos: no locals
 	nq      int
 	depth   int
+	prev    *State // state at the head of the current loop iteration, for prev(...) in step clauses
 }
 
 func (x *Exec) specEnv(st, old *State, names map[string]Val, pkgPath string) *specEnv {
@@ -498,6 +499,13 @@ func (e *specEnv) call(s *SExpr) Val {
 			e.fail("old() not available here")
 		}
 		sub := &specEnv{x: x, st: e.old, old: e.old, names: e.names, pkgPath: e.pkgPath, pos: e.pos}
+		return sub.value(args[0])
+	case "prev":
+		// prev(e): e at the head of this loop iteration (only in "step" clauses)
+		if e.prev == nil {
+			e.fail("prev() is only available in a loop's step clause")
+		}
+		sub := &specEnv{x: x, st: e.prev, old: e.old, names: e.names, pkgPath: e.pkgPath, pos: e.pos}
 		return sub.value(args[0])
 	case "len":
 		v := argv(0)
